@@ -9,8 +9,8 @@ static int thorough;
 
 static const int VARIANTS[4] = { sodium_base64_VARIANT_ORIGINAL, sodium_base64_VARIANT_ORIGINAL_NO_PADDING,
                                  sodium_base64_VARIANT_URLSAFE, sodium_base64_VARIANT_URLSAFE_NO_PADDING };
-#define NIGN 6
-static const char *IGN[NIGN] = { NULL, "", " \n", ":", "\xe9", ":\xa0\xe9" };      /* incl. ignore sets holding bytes >= 0x80 (Latin-1 / UTF-8 spacing) */
+#define NIGN 8
+static const char *IGN[NIGN] = { NULL, "", " \n", ":", "\xe9", ":\xa0\xe9", "=", ":=" };      /* incl. ignore sets holding bytes >= 0x80 (Latin-1 / UTF-8 spacing) */
 static const char STD[] = "ABCDEFGHIJKLMNOPQRSTUVWXYZabcdefghijklmnopqrstuvwxyz0123456789+/";
 static const char URL[] = "ABCDEFGHIJKLMNOPQRSTUVWXYZabcdefghijklmnopqrstuvwxyz0123456789-_";
 
